@@ -66,6 +66,7 @@ def run(tier, seed, replay_path=None):
                     "tripping an assertion, from every agreeing state; async_stack_balanced — when the ghost root stack is back where it was, the thread's current root, every previously "
                     "open root's active frame and next pointer are what they were, every root opened meanwhile is destroyed with no active frame, and every frame that is not some root's "
                     "active frame has been deactivated exactly as often as activated; trace_chain_leaf_to_root — at every prefix, the parent chain from the active frame is finite, "
-                    "duplicate free, ends at a parentless frame and equals what getAsyncStackTraceFromInitialFrame returns; then_chains_* — kernel-checked instances for then^n(leaf). "
+                    "duplicate free, ends at a parentless frame and equals what getAsyncStackTraceFromInitialFrame returns; then_family_accepted_and_balanced — for EVERY n (induction) the operations emitted for then^n(leaf) are accepted, run without assertion and "
+                    "end balanced; then_chains_*, then_chain_depths, thenOps_is_thenPending — kernel-checked instances (depths seen by the leaf and the root receiver). "
                     "Tie: see rule. A configuration that does not compile on the unchanged tree is listed under coverage.configurations as unsupported-here with the compiler "
                     "message (and run with the stated workaround), not reported as a violation; a configuration that stops compiling is.")
